@@ -334,7 +334,8 @@ func TestC06Bindings(t *testing.T) {
 			if name == "k" {
 				classes["let-named-like-a-column"] = true
 			}
-			prog.Stmts = append(prog.Stmts, &gen.Let{Name: gen.Ident{Name: name}, X: x})
+			// the name may be written in backticks where it is defined: it binds all the same
+			prog.Stmts = append(prog.Stmts, &gen.Let{Name: gen.Ident{Name: name, Quoted: rapid.IntRange(0, 5).Draw(rt, "quotedletname") == 0}, X: x})
 			// later lets see this one
 			var ns []bindSpec
 			for _, b := range scope {
